@@ -537,13 +537,7 @@ Lemma c_recv_unknown_dropped c p m :
   alookup (norm_hdr (p_nsp p)) (m_socks m) = None -> c_recv c p m = (m, []).
 Proof. intros E. unfold c_recv. now rewrite E. Qed.
 
-(** a disconnected client socket buffers what it emits *)
-Lemma c_emit_buffers_when_disconnected c n tag ack m :
-  cs_state (get_sock m (norm_api n)) = CDisc -> snd (c_emit c n tag ack m) = [].
-Proof. intros H. unfold c_emit. now rewrite H. Qed.
-
-(** ... but (as coded) one whose CONNECT is pending sends at once *)
-Lemma c_emit_sends_while_pending c n tag ack m :
-  cs_state (get_sock m (norm_api n)) = CPend -> m_open m = true ->
-  exists p, snd (c_emit c n tag ack m) = [OSend c p] /\ p_nsp p = norm_api n /\ p_type p = PEvent.
-Proof. intros H O. unfold c_emit. rewrite H, O. simpl. eexists; repeat split. Qed.
+(** a client socket hands nothing to the wire before the CONNECT reply (repaired code) *)
+Lemma c_emit_buffers_until_connected c n tag ack m :
+  cs_state (get_sock m (norm_api n)) <> CConn -> snd (c_emit c n tag ack m) = [].
+Proof. intros H. unfold c_emit. destruct (cs_state _); auto. contradiction. Qed.
